@@ -89,7 +89,7 @@ var plans = map[string]PropPlan{
 	},
 	"C14": {
 		Quick:     []Plan{{Scenario: "dial", PB: 2, DB: 1}, {Scenario: "dial.seq", PB: 2, DB: 0}, {Scenario: "dial.retry", PB: 1, DB: 2}},
-		Thorough:  []Plan{{Scenario: "dial", PB: 3, DB: 2}, {Scenario: "dial.seq", PB: 3, DB: 1}, {Scenario: "dial.retry", PB: 2, DB: 3}},
+		Thorough:  []Plan{{Scenario: "dial", PB: 3, DB: 2}, {Scenario: "dial.seq", PB: 3, DB: 0}, {Scenario: "dial.retry", PB: 2, DB: 3}},
 		QuickSecs: 90, ThoroughSecs: 1200,
 		Assumptions: append([]string{"loopback TCP (IPv4) and AF_UNIX abstract sockets; after a non-blocking connect the harness waits (bounded, real time) until the kernel has decided the loopback handshake so that replays are deterministic", "the dial timeout runs on the virtual clock: 'within its timeout plus scheduling slack' is read as 'the dial needs no event after its own timer fired'", "a typed-nil connection returned together with an error counts as no connection"}, schedAssume...),
 	},
@@ -113,7 +113,7 @@ var plans = map[string]PropPlan{
 	"C19": {
 		Quick: []Plan{{Scenario: "conn.teardown", PB: 1, Race: true}, {Scenario: "conn.lifecycle", PB: 1, Race: true}, {Scenario: "conn.request", PB: 1, Race: true}, {Scenario: "pollmgr", PB: 1, DB: 1, Race: true},
 			{Scenario: "slot.reuse", PB: 1, Race: true}, {Scenario: "mux.shardq", PB: 1, Race: true}, {Scenario: "server", PB: 1, DB: 1, Race: true}, {Scenario: "dial", PB: 1, Race: true}, {Scenario: "conn.flush", PB: 1, DB: 1, Race: true},
-			{Scenario: "conn.recv", PB: 1, Race: true}, {Scenario: "conn.send", PB: 1, Race: true}, {Scenario: "listener", PB: 2, Race: true}},
+			{Scenario: "conn.recv", PB: 1, Race: true}, {Scenario: "conn.send", PB: 1, Race: true}, {Scenario: "listener", PB: 2, Race: true}, {Scenario: "slot.drained", PB: 2, Race: true}},
 		Thorough: []Plan{{Scenario: "conn.teardown", PB: 2, Race: true}, {Scenario: "conn.lifecycle", PB: 2, Race: true}, {Scenario: "conn.request", PB: 2, Race: true}, {Scenario: "pollmgr", PB: 2, DB: 1, Race: true},
 			{Scenario: "slot.reuse", PB: 2, Race: true}, {Scenario: "mux.shardq", PB: 2, Race: true}, {Scenario: "server", PB: 2, DB: 1, Race: true}, {Scenario: "dial", PB: 2, DB: 1, Race: true},
 			{Scenario: "conn.flush", PB: 2, DB: 1, Race: true}, {Scenario: "conn.read", PB: 2, DB: 1, Race: true}, {Scenario: "conn.send", PB: 2, DB: 1, Race: true}, {Scenario: "conn.recv", PB: 2, DB: 1, Race: true}, {Scenario: "poll.live", PB: 2, Race: true}, {Scenario: "listener", PB: 3, Race: true}},
